@@ -39,7 +39,7 @@ Proof.
 Qed.
 
 Lemma al_too_large_true c s size : al_too_large c size = true -> aligned_alloc c s size = Some (s, 0).
-Proof. unfold aligned_alloc. intros ->. reflexivity. Qed.
+Proof. unfold aligned_alloc. intros ->. destruct (size =? 0); reflexivity. Qed.
 
 (* alloc: aligned, inside the block obtained from the wrapped allocator, header recoverable.
    No bound on the size: the request never wraps (the code tests for it). *)
@@ -54,6 +54,7 @@ Theorem aligned_alloc_spec_proof : forall c s size s' p,
     aligned_realptr s' p = origp.
 Proof.
   intros c s size s' p Hp Hal HA64 Hs Hin H Hpnz. unfold aligned_alloc in H.
+  destruct (size =? 0); [inversion H; subst; contradiction|].
   destruct (al_too_large c size) eqn:Etl; [inversion H; subst; contradiction|].
   destruct (al_too_large_false c size (pow2_pos _ Hp) HA64 Hs Etl) as [Hfit Hreq].
   split; [exact Hreq|].
@@ -114,9 +115,6 @@ Proof.
   exact Hf.
 Qed.
 
-(* false of the code (open finding): AlignedAllocator(ArenaAllocator(1024,8),64):alloc(0) takes 71
-   bytes from the arena and returns a pointer *)
-Theorem aligned_alloc_zero_refuted_proof : ~ aligned_alloc_zero_nil_full.
-Proof.
-  intros H. specialize (H (mkgcfg (mkacfg 4096 1024 8) 64) aligned_init). vm_compute in H. discriminate H.
-Qed.
+(* "If size is zero ... returns nilptr" (repair ccd321a): the allocator is left alone *)
+Theorem aligned_alloc_zero_proof : aligned_alloc_zero_nil_full.
+Proof. intros c s. reflexivity. Qed.
